@@ -372,7 +372,7 @@ func c33Check(c *kit.Case, in c33Input) {
 					return
 				}
 				e := rm.Run(1 << 20)
-				if e.Kind == ref.Unsupported || e.Kind == ref.Continue || rm.Flags["pc_not_instr_start"] || rm.Flags["self_branch_taken"] {
+				if e.Kind == ref.Unsupported || e.Kind == ref.Continue || rm.Flags["pc_not_instr_start"] {
 					c.Class("out_of_domain_inner_run")
 					return
 				}
